@@ -309,6 +309,9 @@ impl Store {
                     (tx_clone, store, options, gc_tx, done_tx);
                 #[cfg(xs_verif)]
                 crate::verif::point("hist.scan", verif_read_id);
+                // some runs let this thread meet a full delivery buffer and block for real
+                #[cfg(xs_verif)]
+                let verif_unguarded = crate::verif::knob("hist.unguarded", 0) == 1;
                 let mut count = 0;
 
                 for frame in store.iter_frames(options.context_id, options.last_id.as_ref()) {
@@ -332,17 +335,25 @@ impl Store {
 
                     #[cfg(xs_verif)]
                     crate::verif::point_if("hist.deliver", frame.id.to_u128(), &|| {
-                        tx_clone.capacity() > 0 || tx_clone.is_closed()
+                        verif_unguarded || tx_clone.capacity() > 0 || tx_clone.is_closed()
                     });
+                    #[cfg(xs_verif)]
+                    let verif_blocked = crate::verif::blocking(
+                        "hist.send",
+                        verif_read_id,
+                        verif_unguarded && tx_clone.capacity() == 0 && !tx_clone.is_closed(),
+                    );
                     if tx_clone.blocking_send(frame).is_err() {
                         return;
                     }
+                    #[cfg(xs_verif)]
+                    drop(verif_blocked);
                     count += 1;
                 }
 
                 #[cfg(xs_verif)]
                 crate::verif::point_if("hist.scanned", 0, &|| {
-                    tx_clone.capacity() > 0 || tx_clone.is_closed()
+                    verif_unguarded || tx_clone.capacity() > 0 || tx_clone.is_closed()
                 });
                 // Send threshold message if following and no limit
                 if should_follow_clone && options.limit.is_none() {
@@ -356,9 +367,17 @@ impl Store {
                         Some(id) => Frame { id, ..threshold },
                         None => threshold,
                     };
+                    #[cfg(xs_verif)]
+                    let verif_blocked = crate::verif::blocking(
+                        "hist.send",
+                        verif_read_id,
+                        verif_unguarded && tx_clone.capacity() == 0 && !tx_clone.is_closed(),
+                    );
                     if tx_clone.blocking_send(threshold).is_err() {
                         return;
                     }
+                    #[cfg(xs_verif)]
+                    drop(verif_blocked);
                 }
 
                 #[cfg(xs_verif)]
